@@ -452,7 +452,7 @@ def parallel_region_charts(draw, datamodel='null'):
     nreg = draw(st.integers(2, 4))
     regions, leaves = [], []
     for r in range(nreg):
-        kids = [State('state', id="r%d%s" % (r, c)) for c in "ab"]
+        kids = [State('state', id="r%d%s" % (r, c)) for c in ("ab" if draw(st.integers(0, 2)) else "a")]
         regions.append(State('state', id="r%d" % r, children=kids))
         leaves += kids
     par = State('parallel', id="p", children=regions)
@@ -461,16 +461,58 @@ def parallel_region_charts(draw, datamodel='null'):
     for holder in leaves + regions + [par]:
         for _ in range(draw(st.sampled_from([0, 1, 1, 2]) if holder in leaves else st.sampled_from([0, 0, 1]))):
             t = Trans(events=list(draw(st.sampled_from([['a'], ['b'], ['a', 'b'], ['*'], ['a'], ['b']]))))
-            k = draw(st.sampled_from(['none', 'none', 'sibling', 'out', 'other', 'sibling']))
-            if k == 'sibling' and holder in leaves:
+            k = draw(st.sampled_from(['none', 'none', 'sibling', 'out', 'other', 'sibling', 'self']))
+            if k == 'sibling' and holder in leaves and (holder.id[:-1] + 'b') in ids:
                 t.targets = [holder.id[:-1] + ('b' if holder.id.endswith('a') else 'a')]
+            elif k in ('self', 'sibling') and holder is not par:
+                t.targets = [holder.id]
+                if holder in regions and draw(st.booleans()):
+                    t.targets = [holder.children[-1].id]
+                    t.internal = draw(st.booleans())
             elif k == 'out':
                 t.targets = ["out"]
             elif k == 'other':
                 t.targets = [draw(st.sampled_from(ids))]
             holder.transitions.append(t)
-    root = State('scxml', children=[par, out] if draw(st.booleans()) else [out, par])
+    if draw(st.booleans()):
+        root = State('scxml', children=[par, out])
+    else:
+        root = State('scxml', children=[out, par], initial_attr=["p"] if draw(st.booleans()) else None)
     return Chart(root, datamodel, 'early', [])
+
+
+@st.composite
+def delayed_charts(draw, datamodel='null'):
+    """2-4 flat states whose onentry blocks send a / b to the own session - immediately or after 3-25 ms, to the external queue
+    or to #_internal - and whose transitions react to them (target, targetless, raise): the macrostep / stable-notice discipline
+    when events turn up while the session is idle. Not comparable with the (untimed) reference model; used with stream rules."""
+    n = draw(st.integers(2, 4))
+    states = [State('state', id="s%d" % i) for i in range(n)]
+    ids = [s.id for s in states]
+    budget = [draw(st.integers(2, 6))]   # total number of sends that may be executed is bounded by construction below
+    for s in states:
+        blk = []
+        for _ in range(draw(st.sampled_from([0, 1, 1, 2]))):
+            blk.append(Send(draw(st.sampled_from(['a', 'b'])), internal=draw(st.booleans()), delay_ms=draw(st.sampled_from([0, 3, 8, 15, 25]))))
+        if blk:
+            s.onentry = [blk]
+        for ev in ('a', 'b'):
+            k = draw(st.sampled_from(['none', 'next', 'targetless', 'raise', 'next']))
+            if k == 'none':
+                continue
+            t = Trans(events=[ev])
+            if k == 'next':
+                # only forward targets: every state is entered at most once, so the run is finite
+                later = [i for i in ids if i > s.id]
+                if not later:
+                    continue
+                t.targets = [draw(st.sampled_from(later))]
+            elif k == 'raise':
+                t.content = [Raise('c')]
+            s.transitions.append(t)
+        if draw(st.integers(0, 3)) == 0:
+            s.transitions.append(Trans(events=['c'], content=[Log("C" + s.id, ('c', 1))] if datamodel != 'null' else []))
+    return Chart(State('scxml', children=states), datamodel, 'early', [])
 
 
 def history_profile():
